@@ -148,4 +148,27 @@ theorem newResponseFilter_snoc (opts : List (Option (List Path))) (o : Option (L
     newResponseFilter (opts ++ [o]) = match o with | none => newResponseFilter opts | some ps => some ps := by
   simp only [newResponseFilter, List.foldl_append, List.foldl_cons, List.foldl_nil]
 
+/-! ## Where a path may continue -/
+
+/-- `Leads S ty pre t`: the segments `pre` lead from message type `ty` to message type `t`, every one
+of them naming a SINGULAR message field (the only kind of field a mask path may continue through). -/
+inductive Leads (S : Schema) : Nat → Path → Nat → Prop where
+  | here {ty : Nat} : Leads S ty [] ty
+  | step {ty t u : Nat} {seg : Name} {fd : FieldDesc} {rest : Path} :
+      S.field ty seg = some fd → fd.kind = .message t → Leads S t rest u → Leads S ty (seg :: rest) u
+
+theorem validStep_leads {S : Schema} {ty t : Nat} {pre : Path} (h : Leads S ty pre t) (rest : Path) :
+    validStep S (some ty) (pre ++ rest) = validStep S (some t) rest := by
+  induction h with
+  | here => rfl
+  | step hf hk _ ih => simp only [List.cons_append, validStep, hf, hk, ih]
+
+theorem validPath_leads {S : Schema} {ty t : Nat} {pre : Path} (h : Leads S ty pre t) (seg : Name) (rest : Path) :
+    validPath S ty (pre ++ seg :: rest) = validStep S (some t) (seg :: rest) := by
+  rw [← validStep_leads h]
+  unfold validPath
+  split
+  · next heq => cases pre <;> simp at heq
+  · rfl
+
 end ScVerif.C06
